@@ -186,6 +186,26 @@ def null_of(ty) -> Cell:
     return Cell(ty, TRUE, zdefault(ty))
 
 
+# float64 exactness of int -> float conversions.  Off (the default): |ints| <= 2**31 in every template, where the
+# conversion is exact and `ToReal` is the right model.  On (templates tagged "wide", ints up to 2**62, set by e1.build
+# around the two artefact interpreters only - REF never converts): the result is the integer itself up to 2**53 in
+# magnitude and otherwise an unspecified float64 near it that cannot be an odd integer, so an artefact that sends an
+# integer computation through floating point is not equivalent to the exact one any more.
+WIDE = {"on": False, "side": [], "n": 0}
+
+
+def _int_to_f64(x):
+    if not WIDE["on"]:
+        return z3.ToReal(x)
+    WIDE["n"] += 1
+    r = z3.Real(f"f64!{WIDE['n']}")
+    lim = 2**53
+    small = z3.And(x <= lim, x >= -lim)
+    xr = z3.ToReal(x)
+    WIDE["side"] += [z3.Implies(small, r == xr), r - xr <= 1024, xr - r <= 1024, z3.Implies(z3.And(z3.Not(small), x % 2 == 1), r != xr)]
+    return r
+
+
 def as_ty(c: Cell, ty) -> Cell:
     """Coerce a cell to a (wider) static type: null-typed -> anything, int -> real,
     bool -> int (0/1)."""
@@ -194,7 +214,7 @@ def as_ty(c: Cell, ty) -> Cell:
     if c.ty == NULLT:
         return null_of(ty)
     if c.ty == INT and ty == REAL:
-        return Cell(REAL, c.null, z3.ToReal(c.val))
+        return Cell(REAL, c.null, _int_to_f64(c.val))
     if c.ty == BOOL and ty == INT:
         return Cell(INT, c.null, b2i(c.val))
     if c.ty == BOOL and ty == REAL:
